@@ -1861,14 +1861,24 @@ impl Index<usize> for Vec3A {
     type Output = f32;
     #[inline]
     fn index(&self, index: usize) -> &Self::Output {
-        &self.0[index]
+        match index {
+            0 => &self.x,
+            1 => &self.y,
+            2 => &self.z,
+            _ => panic!("index out of bounds"),
+        }
     }
 }
 
 impl IndexMut<usize> for Vec3A {
     #[inline]
     fn index_mut(&mut self, index: usize) -> &mut Self::Output {
-        &mut self.0[index]
+        match index {
+            0 => &mut self.x,
+            1 => &mut self.y,
+            2 => &mut self.z,
+            _ => panic!("index out of bounds"),
+        }
     }
 }
 
